@@ -373,12 +373,12 @@ theorem emit_edges : ∀ (e : Expr F) (s : LState F), EmitE sF root cur e s
   | .cond onTrue c t, s => edges_cond (fun u => emit_edges c u)
   | .and l r, s =>
     edges_logicalE (instr := .and) (r := r) (l := l) (.inl rfl) (fun u => by simp only [emit]) (by simp only [len])
-      (fun h => by simp only [wfE, Bool.and_eq_true] at h; exact h.1.1)
+      (fun h => by simp only [wfE, Bool.and_eq_true] at h; exact h.1)
       (fun h => by
         rcases h with h | ⟨h, _⟩
         · simp only [noR, Bool.and_eq_true] at h; exact h.1
         · simp only [tailR, Bool.and_eq_true] at h; exact h.1)
-      (fun h => by simp only [wfE, Bool.and_eq_true] at h; exact ⟨h.1.2, h.2⟩)
+      (fun h => by simp only [wfE, Bool.and_eq_true] at h; exact h.2)
       (fun h => by
         rcases h with h | ⟨h, h0⟩
         · simp only [noR, Bool.and_eq_true] at h; exact .inl h.2
@@ -386,12 +386,12 @@ theorem emit_edges : ∀ (e : Expr F) (s : LState F), EmitE sF root cur e s
       (fun u => emit_edges l u)
   | .or l r, s =>
     edges_logicalE (instr := .or) (r := r) (l := l) (.inr rfl) (fun u => by simp only [emit]) (by simp only [len])
-      (fun h => by simp only [wfE, Bool.and_eq_true] at h; exact h.1.1)
+      (fun h => by simp only [wfE, Bool.and_eq_true] at h; exact h.1)
       (fun h => by
         rcases h with h | ⟨h, _⟩
         · simp only [noR, Bool.and_eq_true] at h; exact h.1
         · simp only [tailR, Bool.and_eq_true] at h; exact h.1)
-      (fun h => by simp only [wfE, Bool.and_eq_true] at h; exact ⟨h.1.2, h.2⟩)
+      (fun h => by simp only [wfE, Bool.and_eq_true] at h; exact h.2)
       (fun h => by
         rcases h with h | ⟨h, h0⟩
         · simp only [noR, Bool.and_eq_true] at h; exact .inl h.2
@@ -458,8 +458,8 @@ theorem emitArms_edges : ∀ (arms : List (Bool × Expr F × Expr F)) (s : LStat
     simp only [wfEArms, Bool.and_eq_true] at hwf
     obtain ⟨p1, z1⟩ := emit_pre root cur c s hc
     have j1 := p1.jsize
-    have k1 := (emit_dep root cur c s hwf.1.1.1).2
-    have al1 := hal.emit (root := root) hc hwf.1.1.1
+    have k1 := (emit_dep root cur c s hwf.1.1).2
+    have al1 := hal.emit (root := root) hc hwf.1.1
     have ala : Al (((emit root cur c s).pushJump 0).push (jumpIf b) (some (emit root cur c s).jumps.size)) :=
       (al1.pushJump 0).push _ _
     have ka : (((emit root cur c s).pushJump 0).push (jumpIf b) (some (emit root cur c s).jumps.size)).dep = s.dep := by
@@ -484,7 +484,7 @@ theorem emitArms_edges : ∀ (arms : List (Bool × Expr F × Expr F)) (s : LStat
     have dj := depth_at (t := (emit root cur c s).pushJump 0) (i := jumpIf b) (d := some (emit root cur c s).jumps.size)
       (al1.pushJump 0) (da.app.trans happ) had
     simp only [pushJump_instrs, pushJump_dep, k1] at dj
-    have rc := sub_edges (emit_edges c s) hc hp hal (.refl s) hwc hev had hroots hwf.1.1.1
+    have rc := sub_edges (emit_edges c s) hc hp hal (.refl s) hwc hev had hroots hwf.1.1
       (.inl (hnc (b, c, t) List.mem_cons_self)) hcur (.inr (by rw [← z1]; exact dj))
     have hwr := (hwi.mono (lo' := (((emit root cur c s).pushJump 0).push (jumpIf b)
       (some (emit root cur c s).jumps.size)).jumps.size) (by simp; omega)).tailIdx (by simp)
